@@ -160,6 +160,20 @@ def main():
     out.append("(* (engine fn, #mark_modified call sites, consults is_expired, inserts into / removes from the deadline index) *)")
     out.append("Definition engine_census : list (bytes * Z * Z * Z * Z) :=\n  [%s]." %
                ";\n   ".join('(bs "%s", %d, %d, %d, %d)' % r for r in rows))
+    # watch tracker: which functions (public or not) write the per-key counters, the shard counter, the watcher count
+    kc, gc, aw = [], [], []
+    for m5 in re.finditer(r"\n\s*(?:pub(?:\([a-z]+\))?\s+)?fn ([a-z_0-9]+)\s*[<(]", engine):
+        try:
+            b = block_after(engine, m5.start())
+        except ValueError:
+            continue
+        if re.search(r"key_counters\s*\.\s*(write|get_mut|into_inner|try_write)\s*\(", b): kc.append(m5.group(1))
+        if re.search(r"global_counter\s*\.\s*(fetch_[a-z]+|store|swap|compare_exchange[a-z_]*)\s*\(", b): gc.append(m5.group(1))
+        for mm5 in re.finditer(r"active_watchers\s*\.\s*(fetch_[a-z]+|store|swap|compare_exchange[a-z_]*)\s*\(", b): aw.append((m5.group(1), mm5.group(1)))
+    out.append("(* engine.rs ShardWatchTracker: the functions that write key_counters / global_counter, and every write of active_watchers *)")
+    out.append("Definition watch_key_counter_writers : list bytes :=\n  %s." % coq_list(kc))
+    out.append("Definition watch_global_counter_writers : list bytes :=\n  %s." % coq_list(gc))
+    out.append("Definition watch_active_writes : list (bytes * bytes) :=\n  [%s]." % "; ".join('(bs "%s", bs "%s")' % x for x in aw))
     # sweeper: does the delete phase consult the stored deadline?
     sw = fn_body(engine_all, "expiration_cleanup_loop") or ""
     out.append("Definition sweeper_rechecks_stored_deadline : bool := %s." %
